@@ -82,3 +82,10 @@ package cmdutils
 //@   ensures [direct-activation-is-closed] result == nil && ghost("shown") ==> ghost("closed")
 //@   ensures [in-progress-mark-released] result == nil && ghost("descended") ==> ghost("released")
 //@   assert @call:cmdutils.(*StatementElement).Accept [expanded-only-when-not-in-progress] !hitVisited && in(visiting, v.visited) && arg0.stmts == endpoint.Stmt && arg0.isLastParentStmt
+
+// Generators read the model and never write it: merging application and endpoint attributes builds a new map (the
+// application's own attribute map is an input, shared by every later diagram of the run).
+//@ func MergeAttributes
+//@   modifies nothing
+//@   perwrite
+//@   ensures [result-is-a-new-map] fresh(result)
